@@ -1297,6 +1297,15 @@ func (m *List) clone(parent Meta) interface{} {
 		}
 	}
 	
+	if m.unique != nil {
+		// like musts: a copy that kept the backing array of the original would have its
+		// "deviate add { unique }" overwritten by the same deviation of another copy
+		copy.unique = make([][]string, len(m.unique))
+		for i, unique := range m.unique {
+			copy.unique[i] = append([]string(nil), unique...)
+		}
+	}
+	
 	if m.musts != nil {
 		copy.musts = make([]*Must, len(m.musts))
 		for i, must := range m.musts {
